@@ -1,3 +1,278 @@
-// further searches (algorithms, planner, math); filled in as units are added
-pub fn search(_which: &str) -> Option<String> { None }
-pub fn known(_which: &str) -> bool { false }
+// Bounded native checks and replay searches on the real crate (compiled in-crate through the verif_replay hook).
+// Each returns the first concrete input that contradicts the executable reading of a contract.  They are the
+// *bounded stand-ins* for contracts that are ASSUMED in the Verus units (never counted as proved) and the concrete
+// replay for failed obligations of the algorithm/planner units.
+use crate::math_utils::{PrimeFactor, PrimeFactors};
+use crate::{Fft, FftDirection, FftNum, Length, Direction};
+use crate::algorithm::*;
+use num_complex::Complex;
+use std::panic::{catch_unwind, AssertUnwindSafe};
+use std::sync::Arc;
+
+fn quiet<R>(f: impl FnOnce() -> R) -> std::thread::Result<R> {
+    let prev = std::panic::take_hook();
+    std::panic::set_hook(Box::new(|_| {}));
+    let r = catch_unwind(AssertUnwindSafe(f));
+    std::panic::set_hook(prev);
+    r
+}
+fn panic_msg(e: Box<dyn std::any::Any + Send>) -> String {
+    if let Some(s) = e.downcast_ref::<String>() { s.clone() } else if let Some(s) = e.downcast_ref::<&str>() { s.to_string() } else { "panic".into() }
+}
+fn is_prime_naive(n: usize) -> bool {
+    if n < 2 { return false; }
+    let mut d = 2;
+    while d * d <= n { if n % d == 0 { return false; } d += 1; }
+    true
+}
+
+// executable well-formedness of a PrimeFactors value through its public accessors
+fn pf_check(f: &PrimeFactors, n: usize) -> Result<(), String> {
+    if f.get_product() != n { return Err(format!("get_product() = {} != {}", f.get_product(), n)); }
+    let mut prod: u128 = 1u128 << f.get_power_of_two();
+    prod *= 3u128.pow(f.get_power_of_three());
+    let mut total = f.get_power_of_two() + f.get_power_of_three();
+    let mut distinct = (f.get_power_of_two() > 0) as u32 + (f.get_power_of_three() > 0) as u32;
+    let mut last = 4usize;
+    for pf in f.get_other_factors() {
+        if pf.count == 0 { return Err(format!("factor {} with count 0", pf.value)); }
+        if pf.value <= last { return Err(format!("factors not strictly increasing at {}", pf.value)); }
+        if !is_prime_naive(pf.value) { return Err(format!("factor {} is not prime", pf.value)); }
+        last = pf.value;
+        prod *= (pf.value as u128).pow(pf.count);
+        total += pf.count;
+        distinct += 1;
+    }
+    if prod != n as u128 { return Err(format!("product of factors = {} != {}", prod, n)); }
+    if total != f.get_total_factor_count() { return Err(format!("total_factor_count {} != {}", f.get_total_factor_count(), total)); }
+    if distinct != f.get_distinct_factor_count() { return Err(format!("distinct_factor_count {} != {}", f.get_distinct_factor_count(), distinct)); }
+    Ok(())
+}
+
+fn structured_lengths(limit: u64) -> Vec<usize> {
+    // prime powers and products of few prime powers below `limit`
+    let primes = [2u64, 3, 5, 7, 11, 13, 17, 19, 23, 29, 31, 37, 41, 43, 47, 53, 97, 101, 127, 251, 257, 509, 1021];
+    let mut v = vec![];
+    for &p in &primes {
+        let mut x = p;
+        while x < limit { v.push(x as usize); for &q in &primes { let mut y = x * q; let mut c = 0; while y < limit && c < 3 { v.push(y as usize); y *= q; c += 1; } } x *= p; }
+    }
+    v.sort(); v.dedup(); v
+}
+
+fn check_partition(n: usize) -> Option<String> {
+    let f = PrimeFactors::compute(n);
+    if let Err(e) = pf_check(&f, n) { return Some(format!("PrimeFactors::compute({}): {}", n, e)); }
+    if f.is_prime() != is_prime_naive(n) { return Some(format!("PrimeFactors::compute({}).is_prime() = {}", n, f.is_prime())); }
+    if n >= 2 && !f.is_prime() {
+        let r = quiet(|| f.clone().partition_factors());
+        match r {
+            Err(e) => return Some(format!("PrimeFactors::compute({}).partition_factors() panicked: {}", n, panic_msg(e))),
+            Ok((l, r)) => {
+                let (ln, rn) = (l.get_product(), r.get_product());
+                if ln < 2 || rn < 2 || (ln as u128) * (rn as u128) != n as u128 {
+                    return Some(format!("PrimeFactors::compute({}).partition_factors() = ({}, {}): parts must be >= 2 with product {}", n, ln, rn, n));
+                }
+                if let Err(e) = pf_check(&l, ln) { return Some(format!("partition_factors of {}: left part {}: {}", n, ln, e)); }
+                if let Err(e) = pf_check(&r, rn) { return Some(format!("partition_factors of {}: right part {}: {}", n, rn, e)); }
+            }
+        }
+    }
+    // assumed iterator one-liners
+    for m in [0usize, 1, 2, 3, 4, 5, 6, 7, 10, 11, 23] {
+        let o = f.get_other_factors();
+        let leq = f.get_power_of_two() > 0 || f.get_power_of_three() > 0 || (o.len() > 0 && o[0].value <= m);
+        if f.has_factors_leq(m) != leq { return Some(format!("PrimeFactors::compute({}).has_factors_leq({}) = {}", n, m, f.has_factors_leq(m))); }
+        let gt = (m < 2 && f.get_power_of_two() > 0) || (m < 3 && f.get_power_of_three() > 0) || (o.len() > 0 && o[o.len() - 1].value > m);
+        if f.has_factors_gt(m) != gt { return Some(format!("PrimeFactors::compute({}).has_factors_gt({}) = {}", n, m, f.has_factors_gt(m))); }
+        let pa: usize = o.iter().filter(|x| x.value > m).map(|x| x.value.pow(x.count)).product();
+        if f.product_above(m) != pa { return Some(format!("PrimeFactors::compute({}).product_above({}) = {} != {}", n, m, f.product_above(m), pa)); }
+    }
+    None
+}
+
+fn check_plan_scalar(n: usize) -> Option<String> {
+    for d in [FftDirection::Forward, FftDirection::Inverse] {
+        let r = quiet(|| { let mut p = crate::FftPlannerScalar::<f64>::new(); p.plan_fft(n, d) });
+        match r {
+            Err(e) => return Some(format!("FftPlannerScalar::<f64>::new().plan_fft({}, {:?}) panicked: {}", n, d, panic_msg(e))),
+            Ok(f) => {
+                if f.len() != n { return Some(format!("FftPlannerScalar plan_fft({}, {:?}).len() = {}", n, d, f.len())); }
+                if f.fft_direction() != d { return Some(format!("FftPlannerScalar plan_fft({}, {:?}).fft_direction() = {:?}", n, d, f.fft_direction())); }
+                let worst = f.get_inplace_scratch_len().max(f.get_outofplace_scratch_len()).max(f.get_immutable_scratch_len());
+                if worst > 12 * n + 64 { return Some(format!("FftPlannerScalar plan_fft({}, {:?}) advertises scratch {} > 12n+64", n, d, worst)); }
+            }
+        }
+    }
+    None
+}
+
+// ---- stubs obeying (and checking) the Fft contract, used to replay wrapper plumbing ---------------------------------
+pub struct StubFft { pub len: usize, pub ip: usize, pub oop: usize, pub imm: usize, pub dir: FftDirection }
+impl Length for StubFft { fn len(&self) -> usize { self.len } }
+impl Direction for StubFft { fn fft_direction(&self) -> FftDirection { self.dir } }
+impl StubFft {
+    fn garbage(s: &mut [Complex<f64>], salt: f64) { for (i, x) in s.iter_mut().enumerate() { *x = Complex::new(1.0e6 + salt + i as f64, -7.5); } }
+    fn apply(chunk: &mut [Complex<f64>]) { // deterministic per-chunk function: reverse and add index
+        chunk.reverse();
+        for (i, x) in chunk.iter_mut().enumerate() { *x = *x + Complex::new(i as f64, 1.0); }
+    }
+}
+impl Fft<f64> for StubFft {
+    fn process_with_scratch(&self, buffer: &mut [Complex<f64>], scratch: &mut [Complex<f64>]) {
+        if self.len == 0 { return; }
+        assert!(buffer.len() % self.len == 0, "STUB-CONTRACT: inner process_with_scratch got buffer.len() = {} for len {}", buffer.len(), self.len);
+        assert!(scratch.len() >= self.ip, "STUB-CONTRACT: inner process_with_scratch got scratch.len() = {} < advertised {}", scratch.len(), self.ip);
+        for c in buffer.chunks_exact_mut(self.len) { Self::apply(c); }
+        Self::garbage(scratch, 1.0);
+    }
+    fn process_outofplace_with_scratch(&self, input: &mut [Complex<f64>], output: &mut [Complex<f64>], scratch: &mut [Complex<f64>]) {
+        if self.len == 0 { return; }
+        assert!(input.len() == output.len() && input.len() % self.len == 0, "STUB-CONTRACT: inner out-of-place got input.len() = {}, output.len() = {} for len {}", input.len(), output.len(), self.len);
+        assert!(scratch.len() >= self.oop, "STUB-CONTRACT: inner out-of-place got scratch.len() = {} < advertised {}", scratch.len(), self.oop);
+        output.copy_from_slice(input);
+        for c in output.chunks_exact_mut(self.len) { Self::apply(c); }
+        Self::garbage(input, 2.0);
+        Self::garbage(scratch, 3.0);
+    }
+    fn process_immutable_with_scratch(&self, input: &[Complex<f64>], output: &mut [Complex<f64>], scratch: &mut [Complex<f64>]) {
+        if self.len == 0 { return; }
+        assert!(input.len() == output.len() && input.len() % self.len == 0, "STUB-CONTRACT: inner immutable got input.len() = {}, output.len() = {} for len {}", input.len(), output.len(), self.len);
+        assert!(scratch.len() >= self.imm, "STUB-CONTRACT: inner immutable got scratch.len() = {} < advertised {}", scratch.len(), self.imm);
+        output.copy_from_slice(input);
+        for c in output.chunks_exact_mut(self.len) { Self::apply(c); }
+        Self::garbage(scratch, 4.0);
+    }
+    fn get_inplace_scratch_len(&self) -> usize { self.ip }
+    fn get_outofplace_scratch_len(&self) -> usize { self.oop }
+    fn get_immutable_scratch_len(&self) -> usize { self.imm }
+}
+fn stub(len: usize, ip: usize, oop: usize, imm: usize) -> Arc<dyn Fft<f64>> { Arc::new(StubFft { len, ip, oop, imm, dir: FftDirection::Forward }) }
+
+// run the three explicit-scratch entry points of `fft` with scratch of exactly the advertised length (garbage-filled) and
+// with a longer zeroed scratch; report a panic or a bitwise difference between the two runs
+fn exercise(desc: &str, fft: &dyn Fft<f64>) -> Option<String> {
+    let n = fft.len();
+    for chunks in [1usize, 2] {
+        let data: Vec<Complex<f64>> = (0..n * chunks).map(|i| Complex::new(i as f64 + 0.5, -(i as f64))).collect();
+        let mut outs: Vec<Vec<Vec<Complex<f64>>>> = vec![];
+        for variant in 0..2 {
+            let mut res = vec![];
+            // in-place
+            let need = fft.get_inplace_scratch_len();
+            let mut buf = data.clone();
+            let mut scratch = if variant == 0 { vec![Complex::new(f64::NAN, 1.0e300); need] } else { vec![Complex::new(0.0, 0.0); need + 17] };
+            if let Err(e) = quiet(|| fft.process_with_scratch(&mut buf, &mut scratch)) {
+                return Some(format!("{desc}: process_with_scratch(buffer.len()={}, scratch.len()={} (advertised {})) panicked: {}", buf.len(), scratch.len(), need, panic_msg(e)));
+            }
+            res.push(buf);
+            // out-of-place
+            let need = fft.get_outofplace_scratch_len();
+            let mut inp = data.clone();
+            let mut out = if variant == 0 { vec![Complex::new(f64::NAN, -1.0e300); n * chunks] } else { vec![Complex::new(0.0, 0.0); n * chunks] };
+            let mut scratch = if variant == 0 { vec![Complex::new(f64::NAN, 1.0e300); need] } else { vec![Complex::new(0.0, 0.0); need + 17] };
+            if let Err(e) = quiet(|| fft.process_outofplace_with_scratch(&mut inp, &mut out, &mut scratch)) {
+                return Some(format!("{desc}: process_outofplace_with_scratch(len={}, scratch.len()={} (advertised {})) panicked: {}", inp.len(), scratch.len(), need, panic_msg(e)));
+            }
+            res.push(out);
+            // immutable
+            let need = fft.get_immutable_scratch_len();
+            let inp = data.clone();
+            let mut out = if variant == 0 { vec![Complex::new(f64::NAN, -1.0e300); n * chunks] } else { vec![Complex::new(0.0, 0.0); n * chunks] };
+            let mut scratch = if variant == 0 { vec![Complex::new(f64::NAN, 1.0e300); need] } else { vec![Complex::new(0.0, 0.0); need + 17] };
+            if let Err(e) = quiet(|| fft.process_immutable_with_scratch(&inp, &mut out, &mut scratch)) {
+                return Some(format!("{desc}: process_immutable_with_scratch(len={}, scratch.len()={} (advertised {})) panicked: {}", inp.len(), scratch.len(), need, panic_msg(e)));
+            }
+            if inp.iter().zip(data.iter()).any(|(a, b)| a.re.to_bits() != b.re.to_bits() || a.im.to_bits() != b.im.to_bits()) {
+                return Some(format!("{desc}: process_immutable_with_scratch modified its input"));
+            }
+            res.push(out);
+            outs.push(res);
+        }
+        for (k, name) in ["process_with_scratch", "process_outofplace_with_scratch", "process_immutable_with_scratch"].iter().enumerate() {
+            let same = outs[0][k].iter().zip(outs[1][k].iter()).all(|(a, b)| a.re.to_bits() == b.re.to_bits() && a.im.to_bits() == b.im.to_bits());
+            if !same { return Some(format!("{desc}: {name} output depends on scratch/output initial contents or scratch length ({} chunk(s))", chunks)); }
+        }
+    }
+    None
+}
+
+fn needs(len: usize) -> Vec<usize> { let mut v = vec![0, 1, len.saturating_sub(1), len, len + 1, 2 * len + 3, 3 * len * len + 1]; v.sort(); v.dedup(); v }
+
+fn wrapper2(which: &str) -> Option<String> {
+    // two-inner wrappers over stubs: all small (w, h) and all combinations of inner scratch needs
+    for w in 1..=4usize { for h in 1..=4usize {
+        let small = which.ends_with("Small");
+        let gt = which.starts_with("GoodThomas");
+        if gt && num_integer::gcd(w, h) != 1 { continue; }
+        for &wip in &needs(w) { for &woop in &needs(w) { for &hip in &needs(h) { for &hoop in &needs(h) {
+            if small && (woop != 0 || hoop != 0 || wip > w || hip > h) { continue; }
+            let (a, b) = (stub(w, wip, woop, wip), stub(h, hip, hoop, hip));
+            let desc = format!("{which}::new(inner(len={w}, inplace={wip}, outofplace={woop}), inner(len={h}, inplace={hip}, outofplace={hoop}))");
+            let built: std::thread::Result<Box<dyn Fft<f64>>> = quiet(|| -> Box<dyn Fft<f64>> { match which {
+                "MixedRadix" => Box::new(MixedRadix::new(a, b)),
+                "MixedRadixSmall" => Box::new(MixedRadixSmall::new(a, b)),
+                "GoodThomasAlgorithm" => Box::new(GoodThomasAlgorithm::new(a, b)),
+                _ => Box::new(GoodThomasAlgorithmSmall::new(a, b)),
+            }});
+            match built {
+                Err(e) => return Some(format!("{desc} panicked under its documented precondition: {}", panic_msg(e))),
+                Ok(f) => {
+                    if f.len() != w * h { return Some(format!("{desc}.len() = {}", f.len())); }
+                    if let Some(x) = exercise(&desc, &*f) { return Some(x); }
+                }
+            }
+        }}}}
+    }}
+    None
+}
+
+fn wrapper1(which: &str) -> Option<String> {
+    for base in 1..=5usize { for &bip in &needs(base) { for &boop in &needs(base) {
+        let mk = || stub(base, bip, boop, bip);
+        let mut cands: Vec<(String, std::thread::Result<Box<dyn Fft<f64>>>)> = vec![];
+        match which {
+            "Radix4" => for k in 0..=2u32 { cands.push((format!("Radix4::new_with_base({k}, inner(len={base}, inplace={bip}, outofplace={boop}))"), quiet(|| -> Box<dyn Fft<f64>> { Box::new(Radix4::new_with_base(k, mk())) }))); },
+            "Radix3" => for k in 0..=2u32 { cands.push((format!("Radix3::new_with_base({k}, inner(len={base}, inplace={bip}, outofplace={boop}))"), quiet(|| -> Box<dyn Fft<f64>> { Box::new(Radix3::new_with_base(k, mk())) }))); },
+            "RadersAlgorithm" => { if is_prime_naive(base + 1) { cands.push((format!("RadersAlgorithm::new(inner(len={base}, inplace={bip}, outofplace={boop}))"), quiet(|| -> Box<dyn Fft<f64>> { Box::new(RadersAlgorithm::new(mk())) }))); } },
+            "BluesteinsAlgorithm" => for len in 1..=((base + 1) / 2) { cands.push((format!("BluesteinsAlgorithm::new({len}, inner(len={base}, inplace={bip}, outofplace={boop}))"), quiet(|| -> Box<dyn Fft<f64>> { Box::new(BluesteinsAlgorithm::new(len, mk())) }))); },
+            _ => {}
+        }
+        for (desc, built) in cands {
+            match built {
+                Err(e) => return Some(format!("{desc} panicked under its documented precondition: {}", panic_msg(e))),
+                Ok(f) => { if let Some(x) = exercise(&desc, &*f) { return Some(x); } }
+            }
+        }
+    }}}
+    None
+}
+
+pub fn search(which: &str) -> Option<String> {
+    if let Some(rest) = which.strip_prefix("partition:") {
+        let limit: usize = rest.parse().unwrap_or(1 << 14);
+        for n in 1..limit { if let Some(x) = check_partition(n) { return Some(x); } }
+        for n in structured_lengths(1u64 << 40) { if let Some(x) = check_partition(n) { return Some(x); } }
+        return None;
+    }
+    if let Some(rest) = which.strip_prefix("plan_scalar:") {
+        let limit: usize = rest.parse().unwrap_or(1 << 10);
+        for n in 0..limit { if let Some(x) = check_plan_scalar(n) { return Some(x); } }
+        for n in structured_lengths(1u64 << 18) { if let Some(x) = check_plan_scalar(n) { return Some(x); } }
+        return None;
+    }
+    if which == "sqrt_limit" {
+        // A-sqrt: for every m < 2^24, ((m*m) as f32).sqrt() as usize >= m  (so limit = that + 1 squared exceeds every n >= m^2 below (m+1)^2 by monotonicity)
+        for m in 0u64..(1 << 24) { let n = m * m; if ((n as f32).sqrt() as u64) < m { return Some(format!("(n as f32).sqrt() as usize < sqrt(n) for n = {}", n)); } }
+        return None;
+    }
+    match which {
+        "MixedRadix" | "MixedRadixSmall" | "GoodThomasAlgorithm" | "GoodThomasAlgorithmSmall" => wrapper2(which),
+        "Radix4" | "Radix3" | "RadersAlgorithm" | "BluesteinsAlgorithm" => wrapper1(which),
+        _ => None,
+    }
+}
+pub fn known(which: &str) -> bool {
+    which.starts_with("partition:") || which.starts_with("plan_scalar:") || which == "sqrt_limit"
+        || matches!(which, "MixedRadix" | "MixedRadixSmall" | "GoodThomasAlgorithm" | "GoodThomasAlgorithmSmall" | "Radix4" | "Radix3" | "RadersAlgorithm" | "BluesteinsAlgorithm")
+}
